@@ -698,3 +698,149 @@ c.ens("filters-resolved-by-name-128-bit-key-metadata-flag", lambda self: And(
     self.length == 128, self.stmf == self.strf, self.strf == ("Identity" if V4K[0] == "identity-for-both" else "StdCF"),
     sorted(self.cfm) == ["Identity", "StdCF"], getattr(self.cfm["StdCF"], "name", None) == ("decrypt_rc4" if V4K[0] == "rc4" else "decrypt_aes128"),
     getattr(self.cfm["Identity"], "name", None) == "decrypt_identity", self.encrypt_metadata == (V4K[0] != "metadata-flag-false"), V4K[0] in ("aes", "rc4", "identity-for-both", "metadata-flag-false")))
+
+
+# -- shape items (C16): the box is the hull of the points; a line has its two end points, a rectangle its four corners in x0y0 x1y0 x1y1 x0y1 order; all
+#    paint attributes are stored as given -------------------------------------------------------------------------------------------------------------------
+def _shape_contract(cls, geom_param, geom_sort, pts_of):
+    c = contract("pdfminer.layout:%s.__init__" % cls, props=["C16"])
+    c.param("self", T.Obj("pdfminer.layout:" + cls)).param("linewidth", T.Real()).param(geom_param[0], geom_sort[0])
+    if len(geom_param) > 1:
+        c.param(geom_param[1], geom_sort[1])
+    c.param("stroke", T.Bool()).param("fill", T.Bool()).param("evenodd", T.Bool()).param("stroking_color", T.Const("sc")).param("non_stroking_color", T.Const("nc"))
+    c.param("original_path", T.Const("path")).param("dashing_style", T.Const("dash"))
+    c.skip_cross = True
+    c.inline = True
+    c.mod("self.*")
+
+    def spec(self, linewidth, stroke, fill, evenodd, **geom):
+        pts = pts_of(**geom)
+        hull = (Min(*[p[0] for p in pts]), Min(*[p[1] for p in pts]), Max(*[p[0] for p in pts]), Max(*[p[1] for p in pts]))
+        return And(eq(tuple(self.bbox), hull), eq(self.x0, hull[0]), eq(self.y0, hull[1]), eq(self.x1, hull[2]), eq(self.y1, hull[3]),
+                   eq(self.width, hull[2] - hull[0]), eq(self.height, hull[3] - hull[1]),
+                   len(self.pts) == len(pts), *[eq(tuple(a), tuple(b)) for a, b in zip(self.pts, pts)],
+                   eq(self.linewidth, linewidth), self.stroke is stroke, self.fill is fill, self.evenodd is evenodd, self.stroking_color == "sc", self.non_stroking_color == "nc",
+                   self.original_path == "path", self.dashing_style == "dash")
+    if cls == "LTLine":
+        c.ens("hull-points-and-attributes", lambda self, linewidth, stroke, fill, evenodd, p0, p1: spec(self, linewidth, stroke, fill, evenodd, p0=p0, p1=p1))
+    elif cls == "LTRect":
+        c.ens("hull-points-and-attributes", lambda self, linewidth, stroke, fill, evenodd, bbox: spec(self, linewidth, stroke, fill, evenodd, bbox=bbox))
+    else:
+        c.ens("hull-points-and-attributes", lambda self, linewidth, stroke, fill, evenodd, pts: spec(self, linewidth, stroke, fill, evenodd, pts=pts))
+    return c
+
+
+_shape_contract("LTCurve", ["pts"], [T.Tup(T.RealTup(2), T.RealTup(2), T.RealTup(2), as_list=True)], lambda pts: list(pts))
+_shape_contract("LTLine", ["p0", "p1"], [T.RealTup(2), T.RealTup(2)], lambda p0, p1: [p0, p1])
+_shape_contract("LTRect", ["bbox"], [T.RealTup(4)], lambda bbox: [(bbox[0], bbox[1]), (bbox[2], bbox[1]), (bbox[2], bbox[3]), (bbox[0], bbox[3])])
+
+
+# -- references (C02, C13): a reference resolves to what the document holds under its number, or to the default when the document has no such object ----------
+class _DocFor(T.Sort):
+    def fresh(self, ctx, name):
+        from pyvc.symexec import SymRaise
+        k = ctx.choose(["present", "absent"], "object")
+        o = SObj(None, {"_k": k, "_asked": []}, name)
+
+        def getobj(I, objid, o=o):
+            o.f["_asked"].append(objid)
+            if k == "absent":
+                raise SymRaise(pt.PDFObjectNotFound, "getobj")
+            return "the-object"
+        o.f["getobj"] = SymFn(getobj, "getobj")
+        return o
+    def sample(self, rng):
+        return None
+    def from_model(self, ev, v):
+        return v.f["_k"]
+
+
+c = contract("pdfminer.pdftypes:PDFObjRef.resolve", props=["C02", "C13"])
+c.param("self", T.Obj("pdfminer.pdftypes:PDFObjRef", doc=_DocFor(), objid=T.Int(1))).param("default", T.Const("the-default"))
+c.skip_cross = True
+c.inline = True
+c.mod("self.doc._asked")
+c.returns(T.Opaque("value"))
+c.ens("the-documents-object-under-this-number-else-the-default", lambda self, result: And(
+    len(self.doc._asked) == 1, self.doc._asked[0] is self.objid, result == ("the-object" if self.doc._k == "present" else "the-default")))
+
+
+# -- CCITT bit feeding (C19): bits go in most significant first, one trie step per bit; ByteSkip drops the rest of the byte and returns to mode codes;
+#    EOFB ends the data -----------------------------------------------------------------------------------------------------------------------------------
+cc = real_module("pdfminer.ccitt")
+
+
+class _G4Feed(T.Sort):
+    def fresh(self, ctx, name):
+        from pyvc.symexec import SymRaise
+        ev = ctx.choose(["plain", "byteskip-at-bit-3-of-byte-0", "eofb-at-bit-5-of-byte-1"], "event")
+        o = SObj(cc.CCITTG4Parser, {"_bits": [], "_ev": ev, "_accept": "previous-accept", "_state": "previous-state"}, name)
+
+        def parse_bit(I, x, o=o):
+            n = len(o.f["_bits"])
+            o.f["_bits"].append(x)
+            if ev.startswith("byteskip") and n == 3:
+                raise SymRaise(cc.CCITTG4Parser.ByteSkip, "skip")
+            if ev.startswith("eofb") and n == 8 + 5:
+                raise SymRaise(cc.CCITTG4Parser.EOFB, "eofb")
+        o.f["_parse_bit"] = SymFn(parse_bit, "_parse_bit")
+        o.f["_parse_mode"] = "the-mode-parser"
+        return o
+    def sample(self, rng):
+        return None
+    def from_model(self, ev, v):
+        return v.f["_ev"]
+
+
+class FixedBytes(T.Sort):
+    """a byte string of a fixed, concrete length with symbolic bytes"""
+    def __init__(self, n):
+        self.n = n
+    def fresh(self, ctx, name):
+        from pyvc.values import SBytes
+        vals = [ctx.fresh_int("%s.b%d" % (name, k)) for k in range(self.n)]
+        for b in vals:
+            ctx.assume(z3.And(b >= 0, b < 256))
+        def at(k, vals=vals):
+            if isinstance(k, int):
+                return vals[k]
+            r = vals[-1]
+            for i in range(len(vals) - 2, -1, -1):
+                r = If(eq(k, i), vals[i], r)
+            return r
+        d = SBytes(self.n, at, (0, 256), "bytes")
+        d._vals = vals
+        return d
+    def sample(self, rng):
+        return None
+    def from_model(self, ev, v):
+        return bytes(int(ev(x)) for x in v._vals).hex()
+
+
+c = contract("pdfminer.ccitt:CCITTG4Parser.feedbytes", props=["C19"])
+c.param("self", _G4Feed()).param("data", FixedBytes(3))
+c.skip_cross = True
+c.inline = True
+c.mod("self._bits").mod("self._accept").mod("self._state")
+
+
+def _feed_ok(self, data):
+    ev = self._ev
+    bits = self._bits
+    def bit(k):      # k-th bit of the data, most significant first, as the masked value the parser receives
+        return (k // 8, 128 >> (k % 8))
+    if ev == "plain":
+        order = list(range(24))
+    elif ev.startswith("byteskip"):
+        order = [0, 1, 2, 3] + list(range(8, 24))
+    else:
+        order = list(range(0, 14))
+    if len(bits) != len(order):
+        return False
+    from pyvc.logic import mod, floordiv
+    ok = [eq(b, mod(floordiv(data.at(bit(k)[0]), bit(k)[1]), 2) * bit(k)[1]) for b, k in zip(bits, order)]
+    st = And(self._accept == "the-mode-parser", self._state is cc.CCITTG4Parser.MODE) if ev.startswith("byteskip") else And(self._accept == "previous-accept", self._state == "previous-state")
+    return And(st, *ok)
+
+
+c.ens("bits-most-significant-first-skip-drops-the-rest-of-the-byte-eofb-stops", _feed_ok)
